@@ -48,6 +48,22 @@ def parent(node):
   return getattr(node, "_parent", None)
 
 
+def clone(node):
+  """Deep copy of a syntax (sub)tree that does not follow the `_parent` / `_info` back links
+  (copy.deepcopy would copy the whole module through them)."""
+  if isinstance(node, list):
+    return [clone(x) for x in node]
+  if not isinstance(node, ast.AST):
+    return node
+  new = type(node)()
+  for fld, val in ast.iter_fields(node):
+    setattr(new, fld, clone(val))
+  for a in ("lineno", "col_offset", "end_lineno", "end_col_offset"):
+    if hasattr(node, a):
+      setattr(new, a, getattr(node, a))
+  return new
+
+
 def ancestors(node):
   n = parent(node)
   while n is not None:
